@@ -132,7 +132,7 @@ func c24Bitmaps(p *an.Prog, r *an.R) {
 							if ret, isR := i2.(*ssa.Return); isR {
 								for i := range ret.Results {
 									rv := retOperand(ret, i)
-									if (strings.Contains(rv.Type().String(), "roaring") && strings.HasSuffix(rv.Type().String(), ".Bitmap")) {
+									if strings.Contains(rv.Type().String(), "roaring") && strings.HasSuffix(rv.Type().String(), ".Bitmap") {
 										// error paths may return nil together with a non-nil error
 										if c, isC := rv.(*ssa.Const); isC && c.IsNil() {
 											if len(ret.Results) > 1 {
